@@ -4,7 +4,6 @@ import (
 	"bytes"
 	"encoding/json"
 	"fmt"
-	"math/big"
 	"math/rand/v2"
 	"reflect"
 	"strings"
@@ -475,5 +474,3 @@ func compareFilled(want filled, got *pkix.Name) []string {
 	}
 	return bad
 }
-
-var _ = big.NewInt
